@@ -9,6 +9,7 @@ T1_MODULES = {
     "C07": ["vt.contracts.utils_maxcounter"],
     "C09": ["vt.contracts.con_cost"],
     "C18": ["vt.contracts.legs_rules"],
+    "C19": ["vt.contracts.exponent"],
 }
 
 LEVEL = {"C05": "exploration", "C12": "exploration"}
